@@ -25,7 +25,7 @@ Cases == FlattenSeq([ci \in 1..Len(Combos) |-> LET k == Combos[ci][1]  n == Comb
            FlattenSeq([pr \in 1..2 |-> LET bs == SetToSeq(Bodies(k, pr = 2)) IN
              [j \in 1..Len(bs) |-> [t |-> bs[j][2], stdin |-> Inputs(n), c |-> bs[j][1] \o "|reads" \o IntStr(k) \o "|lines" \o IntStr(n),
                                     key |-> bs[j][1] \o "|reads" \o IntStr(k) \o (IF pr = 2 THEN "p" ELSE "") \o "|lines" \o IntStr(n)]]])])
-Programs == [i \in 1..Len(Cases) |-> LayoutProg(Cases[i].t, 1)]
+Programs == TLCEval([i \in 1..Len(Cases) |-> LayoutProg(Cases[i].t, 1)])
 FamProgOf(i) == Programs[i]
 Init == \E i \in 1..Len(Programs) : InitSem(i, Cases[i].stdin, FALSE)
 Next == SemNext
